@@ -11,6 +11,9 @@ from core import guarded, require
 
 ID = "C17"
 LEVEL = "exploration"
+LEVEL_TEXT = (
+    "Two-sided agreement (required <= digest <= allowed) with an independent reference on every sequence over a small alphabet up to length 6 (quick) / 9-10 (thorough) x patterns x a 192-point parameter grid, exhaustively, plus random long sequences."
+)
 TECHNIQUE = (
     "exhaustive enumeration of all sequences over a small alphabet x enzyme patterns x a parameter grid, plus "
     "Hypothesis-generated long sequences, against an independent set-builder reference (two-sided: required <= "
